@@ -13,6 +13,7 @@ place_demos() {
   for f in $d/*_test.go; do
     [ -f "$f" ] || continue
     pkg=$(grep -m1 '^package ' $f | awk '{print $2}')
+    case $pkg in vaxis_test) ;; *_test) pkg=${pkg%_test};; esac
     dest=""
     # look for an explicit path in README
     base=$(basename $f)
@@ -39,7 +40,8 @@ place_demos() {
   done | sort -u
 }
 pkgs=$(place_demos)
-run_demo() { rc=0; for p in $pkgs; do (cd $p && timeout 300 go test -vet=off -count=1 -run . . >/tmp/wtv/$id.demo.$1.log 2>&1) || rc=1; done; return $rc; }
+tags=""; grep -lq '^//go:build verif' $d/*_test.go 2>/dev/null && tags="-tags verif"
+run_demo() { rc=0; for p in $pkgs; do (cd $p && timeout 300 go test $tags -vet=off -count=1 -run . . >/tmp/wtv/$id.demo.$1.log 2>&1) || rc=1; done; return $rc; }
 if run_demo clean; then res="$res demo_clean=PASS"; else res="$res demo_clean=FAIL"; fi
 find $wt -name 'zz_seeded_*' -delete
 if git apply $patch 2>/tmp/wtv/$id.apply.log || { git apply --3way $patch 2>>/tmp/wtv/$id.apply.log && git reset -q; }; then res="$res apply=OK"; else res="$res apply=FAIL"; echo "$res"; cd /; git -C /repo worktree remove --force $wt; exit 1; fi
